@@ -15,6 +15,7 @@ import (
 type tapeT struct {
 	Vars   map[string]uint64 `json:"vars"`
 	Params map[string]int64  `json:"params"`
+	Strs   map[string]string `json:"strs"`
 }
 
 var tape tapeT
@@ -65,6 +66,14 @@ func I16(name string) int16  { return int16(Bits(name, 16)) }
 func I8(name string) int8    { return int8(Bits(name, 8)) }
 func Bool(name string) bool  { return Bits(name, 1) == 1 }
 func Int(name string) int    { return int(Bits(name, 64)) }
+
+// Str is a string recorded in a replay tape (native confirmation cases only).
+func Str(name string) string { load(); return tape.Strs[name] }
+
+// Confirmed reports a concrete failing case found by a native confirmation run.
+func Confirmed(label, fen string, k int) {
+	fmt.Printf("VP-CONFIRMED %s|%s|%d\n", label, fen, k)
+}
 
 // Param is a concrete case-split parameter chosen by the driver.
 func Param(name string) int { load(); return int(tape.Params[name]) }
